@@ -268,6 +268,18 @@ func exploreHarness(prog *ssa.Program, fn *ssa.Function, inits []*ssa.Function, 
 	e0 := engines[0]
 	st := &State{heap: map[int]Value{}, globals: map[*ssa.Global]int{}, hashBuf: map[int][]Value{}, lockv: map[string]int{}, pools: map[int][]Value{}}
 	for _, ifn := range inits {
+		// package os is not initialised (its init opens the standard streams); its
+		// error variables are aliases of io/fs's
+		if osp, fsp := prog.ImportedPackage("os"), prog.ImportedPackage("io/fs"); osp != nil && fsp != nil {
+			for _, n := range []string{"ErrInvalid", "ErrPermission", "ErrExist", "ErrNotExist", "ErrClosed"} {
+				og, _ := osp.Members[n].(*ssa.Global)
+				fg, _ := fsp.Members[n].(*ssa.Global)
+				if og != nil && fg != nil {
+					dst := e0.eval(st, nil, og).(*Ptr)
+					st.store(dst, st.load(e0.eval(st, nil, fg).(*Ptr)))
+				}
+			}
+		}
 		e0.pushCall(st, ifn, nil, nil, nil)
 		e0.run(st)
 		if st.outcome != "return" {
